@@ -123,6 +123,39 @@ pub open spec fn has_claim(m: Seq<(Value, Value)>, n: int, c: ClaimName) -> bool
 pub open spec fn claims_distinct(m: Seq<(Value, Value)>) -> bool {
     forall |i: int, j: int| 0 <= i < j < m.len() ==> #[trigger] cn_of(m[i].0) != #[trigger] cn_of(m[j].0)
 }
+// ---- C12 (decode, error kind)
+pub open spec fn claims_dup_at(m: Seq<(Value, Value)>, n: int) -> bool {
+    0 <= n < m.len() && (forall |i: int| 0 <= i < n ==> claim_pair_ok(#[trigger] m[i].0, m[i].1)) && claims_distinct(m.subrange(0, n))
+    && (cn_of(m[n].0) matches Some(c) && has_claim(m, n, c))
+}
+#[verifier::opaque]
+pub open spec fn claims_no_dup(m: Seq<(Value, Value)>) -> bool { forall |n: int| !claims_dup_at(m, n) }
+proof fn lemma_claims_distinct_prefix_no_dup(m: Seq<(Value, Value)>, k: int, n: int)
+    requires 0 <= n < k <= m.len(), claims_distinct(m.subrange(0, k)),
+    ensures !claims_dup_at(m, n),
+{
+    if cn_of(m[n].0) is Some && has_claim(m, n, cn_of(m[n].0)->0) {
+        let i = choose |i: int| 0 <= i < n && #[trigger] cn_of(m[i].0) == Some(cn_of(m[n].0)->0);
+        assert(m.subrange(0, k)[i] == m[i] && m.subrange(0, k)[n] == m[n]);
+        assert(cn_of(m.subrange(0, k)[i].0) != cn_of(m.subrange(0, k)[n].0));
+    }
+}
+pub proof fn lemma_claims_bad_pair_no_dup(m: Seq<(Value, Value)>, k: int)
+    requires 0 <= k < m.len(), claims_distinct(m.subrange(0, k)), cn_of(m[k].0) matches Some(c) ==> !has_claim(m, k, c),
+    ensures !claim_pair_ok(m[k].0, m[k].1) ==> claims_no_dup(m),
+{
+    reveal(claims_no_dup);
+    if !claim_pair_ok(m[k].0, m[k].1) {
+        assert forall |n: int| !claims_dup_at(m, n) by { if 0 <= n < k { lemma_claims_distinct_prefix_no_dup(m, k, n); } }
+    }
+}
+pub proof fn lemma_claims_all_distinct_no_dup(m: Seq<(Value, Value)>)
+    requires claims_distinct(m.subrange(0, m.len() as int)),
+    ensures claims_no_dup(m),
+{
+    reveal(claims_no_dup);
+    assert forall |n: int| !claims_dup_at(m, n) by { if 0 <= n < m.len() { lemma_claims_distinct_prefix_no_dup(m, m.len() as int, n); } }
+}
 pub open spec fn claims_ok(v: Value) -> bool {
     v is Map && (forall |i: int| 0 <= i < map_of(v).len() ==> claim_pair_ok(#[trigger] map_of(v)[i].0, map_of(v)[i].1)) && claims_distinct(map_of(v))
 }
@@ -246,11 +279,15 @@ pub proof fn lemma_claims_rest_empty(r: Seq<(ClaimName, Value)>)
 impl AsCborValue for ClaimsSet {«
     // KNOWN FINDING (C12 encode): no duplicate check here; encoding always succeeds (pinned by cwt::tests::test_cwt_dup_claim)
     open spec fn enc_rel(self, r: crate::Result<Value>) -> bool { r matches Ok(v) && vv(v) == claims_cv(self) }
-    open spec fn dec_rel(value: Value, r: crate::Result<Self>) -> bool { (r is Ok <==> claims_ok(value)) && (r matches Ok(c) ==> claims_res(value, c)) }
+    open spec fn dec_rel(value: Value, r: crate::Result<Self>) -> bool {
+        (r is Ok <==> claims_ok(value)) && (r matches Ok(c) ==> claims_res(value, c))
+        && (!claims_no_dup(map_of(value)) ==> (r matches Err(e) && e is DuplicateMapKey))
+    }
     #[verifier::loop_isolation(false)]»
     fn from_cbor_value(value: Value) -> Result<Self, CoseError> {«
         broadcast use axiom_question_mark_uses_from;
         let ghost val0 = value;»
+        «proof { if !(val0 is Map) { reveal(claims_no_dup); } }»
         let m = match value {
             Value::Map(m) => m,
             v => return cbor_type_error(&v, "map"),
@@ -275,6 +312,7 @@ impl AsCborValue for ClaimsSet {«
             proof {
                 assert(n == ms[k].0 && value == ms[k].1);
                 assert(claims_ok(val0) ==> claim_pair_ok(ms[k].0, ms[k].1));
+                if cn_of(ms[k].0) is None { lemma_claims_bad_pair_no_dup(ms, k); }
             }»
             // The `ciborium` CBOR library does not police duplicate map keys, so do it here.
             let name = ClaimName::from_cbor_value(n)?;«
@@ -287,7 +325,7 @@ impl AsCborValue for ClaimsSet {«
                 }»
                 return Err(CoseError::DuplicateMapKey);
             }«
-            proof { assert(!has_claim(ms, k, name)); }»
+            proof { assert(!has_claim(ms, k, name)); lemma_claims_bad_pair_no_dup(ms, k); }»
             crate::vprelude::regp_set_insert(&mut seen, name.clone());
             match name {
                 x if x == ISS => claims.issuer = Some(value.try_as_string()?),
@@ -315,7 +353,7 @@ impl AsCborValue for ClaimsSet {«
                 }
             }»
         }«
-        proof { assert(ms.subrange(0, ms.len() as int) =~= ms); }»
+        proof { lemma_claims_all_distinct_no_dup(ms); assert(ms.subrange(0, ms.len() as int) =~= ms); }»
         Ok(claims)
     }
 
